@@ -126,7 +126,7 @@ def clustering_coef_bd(A):
            = K(K-1) - 2(diag(A^2))
     '''
     S = A + A.T  # symmetrized input graph
-    K = np.sum(S, axis=1)  # total degree (in+out)
+    K = np.array(np.sum(S, axis=1), dtype=float)  # total degree (in+out)
     cyc3 = np.diag(np.dot(S, np.dot(S, S))) / 2  # number of 3-cycles
     K[np.where(cyc3 == 0)] = np.inf  # if no 3-cycles exist, make C=0
     # number of all possible 3 cycles
